@@ -32,8 +32,11 @@ else:
         print(f"pattern occurs {s.count(old)} times"); sys.exit(2)
     open(p,'w').write(s.replace(old,new))
 for i in ids:
-    r = sh(['./check', i, tier], cwd=LAB+'/verif', capture_output=True, text=True)
+    try:
+        r = sh(['timeout', '-k', '10', str(1800 if tier == 'quick' else 10800), './check', i, tier], cwd=LAB+'/verif', capture_output=True, text=True)
+    except Exception as e:
+        print(f'{i}: ERROR {e}'); continue
     out = [l for l in (r.stdout + r.stderr).splitlines() if 'VIOLATION' in l or 'signature=' in l or 'BUILD-FAILED' in l or l.startswith('error')]
-    verdict = {0:'MISSED',1:'CAUGHT'}.get(r.returncode, f'EXIT{r.returncode}')
+    verdict = {0:'MISSED',1:'CAUGHT',124:'HANG',137:'HANG'}.get(r.returncode, f'EXIT{r.returncode}')
     print(f"{i}: {verdict}")
     for l in out[:6]: print("   ", l[:300])
